@@ -273,6 +273,7 @@ impl<Front: SocketHandler> ConnectionH1<Front> {
             "socket_read returned more bytes than the buffer could hold"
         );
         context.debug.push(DebugEvent::StreamEvent(0, size));
+        context.read_progress = context.read_progress.wrapping_add(size);
         kawa.storage.fill(size);
         debug_assert_eq!(
             kawa.storage.available_space(),
@@ -686,7 +687,15 @@ impl<Front: SocketHandler> ConnectionH1<Front> {
                     let ended_by_close = !stream.context.keep_alive_backend
                         && stream.back.expects > 0
                         && stream.context.method != Some(crate::protocol::http::parser::Method::Head);
-                    if stream.context.keep_alive_frontend && !ended_by_close {
+                    // A final response that is complete while the request is not
+                    // (the backend answered without reading the whole body): the
+                    // rest of that body is still coming on this connection. The
+                    // slot must not be reset for a "next request": the leftover
+                    // body bytes would be parsed as one (a second answer — 400 /
+                    // 408 — for the same request, or a smuggled request). RFC 9112
+                    // 9.3: close the connection after such a response.
+                    let request_unfinished = !stream.front.is_terminated();
+                    if stream.context.keep_alive_frontend && !ended_by_close && !request_unfinished {
                         self.timeout_container.reset();
                         if let StreamState::Linked(token) = old_state {
                             endpoint.end_stream(token, stream_id, context);
